@@ -420,6 +420,19 @@ func c02Diff(ctx *core.Ctx, idx int) core.Result {
 		pid := 0
 		cons, _, shape := c02Consumer(r, ps, false, c02Pre(r, &pid))
 		stmts = append(append([]ast.Node{}, pipeLibrary(false)...), cons...)
+		if r.Chance(1, 6) {
+			// a consumer whose frame is wider than a fresh iterator stack; the iterator expression reads its last local
+			w := r.Range(126, 200)
+			var ws []ast.Node
+			for i := 0; i < w; i++ {
+				ws = append(ws, ast.Assign{Name: wideName(i), Value: ast.Binary{Op: "+", L: nm("zn"), R: il(int64(i))}})
+			}
+			last := wideName(w - 1)
+			ws = append(ws, ast.Assign{Name: "acc", Value: ast.ArrayLit{}},
+				ast.For{Vars: []string{"v", "u"}, Iters: []ast.Node{icall("fromto", ast.Binary{Op: "-", L: nm(last), R: il(2)}, nm(last)), ps[0].Expr()}, Body: ast.Assign{Name: "acc", Value: ast.Binary{Op: "+", L: nm("acc"), R: ast.ArrayLit{Elems: []ast.Node{nm("v"), nm("u"), nm(wideName(w / 2))}}}}},
+				nm("acc"))
+			stmts = append(stmts, ast.Assign{Name: "vwide", Value: ast.FuncLit{Params: []string{"zn"}, Body: ast.Block{Stmts: ws}}}, icall("vwide", il(int64(r.Intn(9)))))
+		}
 		if r.Chance(1, 4) {
 			// the value of the loops themselves: a function whose whole body is a loop nest (the inner iterator runs
 			// dry on some rounds, then the nest's value is nil for that round) and a loop that only re-yields
